@@ -191,7 +191,21 @@ def run(ctx):
                 ctx.violation('%s (%s)' % (p['what'], r['cfg']),
                               {'cfg': r['cfg'], 'family': r['fam'], 'lex': r['lex'], 'case': p.get('case'),
                                'fault': {p['kind']: p.get('k')}, 'tail': p.get('tail'), 'stderr': p.get('err')})
-    nfaults = sum(tot.values())
+    # the loader of serialized tables: a short read at every offset of the first 80 bytes and of the tail of the file
+    # must end in a clean failure - nothing freed twice, nothing left allocated (ledger allocator)
+    from . import c15
+    nload = {'quick': 4, 'thorough': 40}[ctx.tier]
+    with Pool(16) as pool:
+        loads = pool.map(c15._loader_job, [(flex, src, work, 700 + i, rng.getrandbits(48), 6) for i in range(nload)], chunksize=1)
+    load_trunc = sum(r['trunc'] for r in loads)
+    for r in loads:
+        for p in r['problems']:
+            if 'truncated' in p:
+                nprob += 1
+                if nprob <= 10:
+                    ctx.violation('tables loader under a short read: ' + p, {'job': r['idx']})
+    runs += sum(r['runs'] for r in loads)
+    nfaults = sum(tot.values()) + load_trunc
     cov = {
         'evaluations': runs, 'distinct_nontrivial': nfaults,
         'rule': 'one evaluation = one run of a real generated scanner (stdio input through a fopencookie stream, '
@@ -199,7 +213,7 @@ def run(ctx):
                 '(scenario, fault kind, fault index) triples; per scenario every allocation index below the '
                 'fault-free count and every read-call index (EIO and EINTR) is tried, capped at %d each' % cap,
         'samples': samples or [{'note': 'no scenario'}],
-        'fault_points': tot, 'faults_fired': fired, 'scenarios': builds,
+        'fault_points': tot, 'faults_fired': fired, 'scenarios': builds, 'tables_loader_short_reads': load_trunc,
         'obligations': len(THEOREMS), 'discharged': discharged,
         'explanation': 'fault enumeration on the real code; oracle: sanitizer-clean, failure reported through '
                        'YY_FATAL_ERROR ("out of dynamic memory"/"input in flex scanner failed") or yylex_init '
